@@ -13,6 +13,7 @@ import (
 	"bytes"
 	"encoding/json"
 	"fmt"
+	sdb "github.com/alicebob/sqlittle/db"
 	"io"
 	"os"
 	"os/exec"
@@ -20,6 +21,7 @@ import (
 	"strings"
 	"syscall"
 	"testing"
+	"verif/pagers"
 
 	"github.com/alicebob/sqlittle"
 	"pgregory.net/rapid"
@@ -721,6 +723,48 @@ func run(r *vt.Run, t vt.TB, s spec) {
 			os.Chmod(j10, []os.FileMode{0o444, 0o400}[k%2])
 			got10, gerr10 := readAllSqlittle(j10)
 			os.Chmod(j10, 0o644)
+			// ... and a file system that has no POSIX locks: the probe of the
+			// RESERVED byte (is the journal's writer still alive?) fails with
+			// ENOLCK. Nobody can tell then; refusing is right, reading is only
+			// right if it shows what SQLite recovers.
+			k11 := filepath.Join(dir, "k.sqlite")
+			sqdb.Remove(k11)
+			copyFile(work, k11)
+			if jerr == nil {
+				copyFile(work+"-journal", k11+"-journal")
+			}
+			var got11 map[string][][]interface{}
+			if fp, err := sdb.VerifFilePager(k11); err == nil {
+				flt := &pagers.Fault{P: fp, ReservedErr: syscall.ENOLCK}
+				if d11, err := sdb.VerifOpen(flt, k11+"-journal"); err == nil {
+					if g, err := readAllHandle(sqlittle.VerifWrap(d11)); err == nil {
+						got11 = g
+					}
+					d11.Close()
+				} else {
+					fp.Close()
+				}
+				r.Count("reads-with-a-failing-reserved-probe", 1)
+			}
+			if got11 != nil {
+				bad := len(got11) != len(want)
+				for tn, wrows := range want {
+					grows, ok := got11[tn]
+					if !ok || len(grows) != len(wrows) {
+						bad = true
+						break
+					}
+					for i := range wrows {
+						if !e1.SameRow(grows[i], wrows[i]) {
+							bad = true
+						}
+					}
+				}
+				if bad {
+					r.Violation(t, cp, "unrecovered-state-read", "%s; fresh handle on a file system without POSIX locks (the probe of the RESERVED byte fails with ENOLCK): the read succeeds with content that is not what SQLite recovers", where0)
+					return
+				}
+			}
 			if got8 != nil {
 				// (judged like the others below, but only when it delivered data)
 				bad := len(got8) != len(want)
